@@ -1,10 +1,174 @@
-(* C15/Props.v — property theorems only. *)
-From Coq Require Import List String ZArith.
-From Exo Require Import Base.Store C15.Model C15.Proofs.
+(* C15/Props.v — property theorems only (proofs: Proofs.v, ProofsHist.v, ProofsThm.v).
+   Vocabulary (Model.v): [run nsubs st blocks] = BeginBlocker applied over the blocks (height, time) to the
+   store [st]; it returns the final store and, per block, the hook invocations in delivery order.
+   [entry id st] = the epoch info of identifier [id]; [log_of id evs] = all notifications of [id] over the
+   history; [store_ok] = identifiers pairwise distinct; [times_ok] = heights >= 0, times non-decreasing. *)
+From Coq Require Import List String ZArith Sorting.Sorted.
+From Exo Require Import Base.Store C15.Model C15.Proofs C15.ProofsHist C15.ProofsThm.
 Import ListNotations.
 Local Open Scope Z_scope.
 
+(* one block: the model's tick satisfies the per-block statement that the monitor evaluates *)
 Theorem C15_tick_meets_statement : forall nsubs h t e,
   step_ok nsubs t e (fst (tick nsubs h t e)) (snd (tick nsubs h t e)) = true.
 Proof. exact tick_step_ok. Qed.
 Print Assumptions C15_tick_meets_statement.
+
+(* While every block time is before the start time the entry is untouched and nobody is notified; in the
+   first block at or after the start time the number becomes 1, the epoch starts at StartTime, and exactly
+   start(1) is delivered to subscribers 0..nsubs-1 in order. *)
+Theorem C15_first : forall nsubs st pre h t id e,
+  store_ok st = true -> entry id st = Some e -> validate e = true -> ei_started e = false ->
+  (forall b, In b pre -> snd b < ei_start e) ->
+  entry id (fst (run nsubs st pre)) = Some e /\ log_of id (snd (run nsubs st pre)) = [] /\
+  (ei_start e <= t ->
+   entry id (fst (begin_block nsubs h t (fst (run nsubs st pre)))) = Some (first_of h e) /\
+   events_of id (snd (begin_block nsubs h t (fst (run nsubs st pre)))) = fanout nsubs EvStart id 1).
+Proof. exact first_thm. Qed.
+Print Assumptions C15_first.
+
+(* After any history [pre], in the next block (h,t): a started entry advances by exactly one — new start
+   time = old start time + duration, end(n) then start(n+1) delivered — iff t > current start + duration;
+   otherwise the entry is unchanged and nobody is notified. One tick per block, hence catch-up one epoch
+   per block. The side condition [ei_start e <= t] is automatic for entries that were unstarted at genesis. *)
+Theorem C15_tick : forall nsubs st pre h t id e,
+  store_ok st = true -> entry id st = Some e -> validate e = true ->
+  times_ok (pre ++ [(h, t)]) = true ->
+  exists e1, entry id (fst (run nsubs st pre)) = Some e1 /\
+    ei_id e1 = id /\ ei_start e1 = ei_start e /\ ei_dur e1 = ei_dur e /\
+    (ei_started e1 = true -> (ei_started e = false \/ ei_start e <= t) ->
+     let b := begin_block nsubs h t (fst (run nsubs st pre)) in
+     (ei_cur_start e1 + ei_dur e < t /\ entry id (fst b) = Some (next_of h e1) /\
+      events_of id (snd b) =
+        fanout nsubs EvEnd id (ei_cur e1) ++ fanout nsubs EvStart id (ei_cur e1 + 1))
+     \/
+     (t <= ei_cur_start e1 + ei_dur e /\ entry id (fst b) = Some e1 /\ events_of id (snd b) = [])).
+Proof. exact tick_thm. Qed.
+Print Assumptions C15_tick.
+
+(* The n-th epoch starts at StartTime + (n-1) x Duration, over every history (no hypothesis on times),
+   for entries that satisfy the law initially — in particular every entry that is unstarted at genesis. *)
+Theorem C15_start_time : forall nsubs st blocks id e,
+  entry id st = Some e -> clock_inv e ->
+  exists e', entry id (fst (run nsubs st blocks)) = Some e' /\
+    ei_id e' = ei_id e /\ ei_start e' = ei_start e /\ ei_dur e' = ei_dur e /\
+    (ei_started e' = true ->
+     1 <= ei_cur e' /\ ei_cur_start e' = ei_start e + (ei_cur e' - 1) * ei_dur e).
+Proof. exact start_time_thm. Qed.
+Print Assumptions C15_start_time.
+
+(* The notification log of one identifier over a whole history is exactly
+   [start(1)]? end(c) start(c+1) end(c+1) start(c+2) ... up to the final number, every notification
+   fanned out to subscribers 0..nsubs-1 in order, end(n) immediately before start(n+1). *)
+Theorem C15_hooks : forall nsubs st blocks id e,
+  store_ok st = true -> entry id st = Some e ->
+  exists e', entry id (fst (run nsubs st blocks)) = Some e' /\
+             log_of id (snd (run nsubs st blocks)) = expected_log nsubs e e'.
+Proof. exact hooks_thm. Qed.
+Print Assumptions C15_hooks.
+
+(* ... hence strictly increasing in the order start(1) < end(1) < start(2) < ... (subscriber index as
+   the minor key), and no (kind, number, subscriber) is ever delivered twice. *)
+Theorem C15_hooks_once_in_order : forall nsubs st blocks id e,
+  store_ok st = true -> entry id st = Some e ->
+  StronglySorted Z.lt (map (ev_rank nsubs) (log_of id (snd (run nsubs st blocks)))) /\
+  NoDup (log_of id (snd (run nsubs st blocks))).
+Proof. exact hooks_ordered_thm. Qed.
+Print Assumptions C15_hooks_once_in_order.
+
+(* The boolean that the whole-history monitor evaluates on the implementation's observed log holds of
+   the model for every history. *)
+Theorem C15_hooks_monitor : forall nsubs st blocks id e,
+  (0 < nsubs)%nat -> store_ok st = true -> entry id st = Some e ->
+  exists e', entry id (fst (run nsubs st blocks)) = Some e' /\
+             hook_hist_ok nsubs e e' (log_of id (snd (run nsubs st blocks))) = true.
+Proof. exact hooks_monitor_thm. Qed.
+Print Assumptions C15_hooks_monitor.
+
+(* Identifiers do not influence one another: the projection of a run on [id] is the same when every other
+   entry is removed from the store, and it is the single-entry trajectory of [id]'s own entry. *)
+Theorem C15_independent : forall nsubs st blocks id,
+  store_ok st = true ->
+  proj id (run nsubs st blocks) = proj id (run nsubs (only id st) blocks).
+Proof. exact independent. Qed.
+Print Assumptions C15_independent.
+
+Theorem C15_independent_entry : forall nsubs blocks st id e,
+  store_ok st = true -> entry id st = Some e ->
+  proj id (run nsubs st blocks) = (Some (fst (run1 nsubs e blocks)), snd (run1 nsubs e blocks)).
+Proof. exact run_proj_some. Qed.
+Print Assumptions C15_independent_entry.
+
+(* The number never decreases and never skips: over [mid] it grows by at most one per block; a started
+   entry stays started. (An unstarted genesis entry with a non-zero number is reset to 1 by the first tick,
+   as the statement says; see [reset_example].) *)
+Theorem C15_monotone : forall nsubs st pre mid id e,
+  entry id st = Some e -> (ei_started e = true \/ ei_cur e = 0) ->
+  exists e1 e2,
+    entry id (fst (run nsubs st pre)) = Some e1 /\
+    entry id (fst (run nsubs st (pre ++ mid))) = Some e2 /\
+    ei_cur e1 <= ei_cur e2 <= ei_cur e1 + Z.of_nat (List.length mid) /\
+    0 <= ei_cur e1 - ei_cur e <= Z.of_nat (List.length pre) /\
+    (ei_started e1 = true -> ei_started e2 = true).
+Proof. exact monotone_thm. Qed.
+Print Assumptions C15_monotone.
+
+(* Entries that fail Validate are frozen; so is any entry while block times are before its start time. *)
+Theorem C15_invalid_frozen : forall nsubs st blocks id e,
+  store_ok st = true -> entry id st = Some e -> validate e = false ->
+  entry id (fst (run nsubs st blocks)) = Some e /\ log_of id (snd (run nsubs st blocks)) = [].
+Proof. exact invalid_frozen_thm. Qed.
+Print Assumptions C15_invalid_frozen.
+
+Theorem C15_held_before_start : forall nsubs st blocks id e,
+  store_ok st = true -> entry id st = Some e ->
+  (forall b, In b blocks -> snd b < ei_start e) ->
+  entry id (fst (run nsubs st blocks)) = Some e /\ log_of id (snd (run nsubs st blocks)) = [].
+Proof. exact held_before_start_thm. Qed.
+Print Assumptions C15_held_before_start.
+
+(* ---------------- non-vacuity: the hypotheses are satisfiable and the histories are not trivial -------- *)
+Definition ex_store : store epoch_info :=
+  init_genesis 0 100 [ mkEI "hour" zero_time 60 0 zero_time false 0;
+                       mkEI "minute" 130 10 0 zero_time false 0;
+                       mkEI "bad" 100 0 0 zero_time false 0;          (* rejected by AddEpochInfo *)
+                       mkEI "week" 50 7 4 71 true 3 ].                (* mid-count entry *)
+Definition ex_blocks : list (Z * Z) := [(1, 101); (2, 101); (3, 130); (4, 141); (5, 200); (6, 200); (7, 201)].
+
+Example ex_store_ok : store_ok ex_store = true. Proof. vm_compute. reflexivity. Qed.
+Example ex_times_ok : times_ok ex_blocks = true. Proof. vm_compute. reflexivity. Qed.
+Example ex_entries :
+  map ei_id (infos ex_store) = ["hour"; "minute"; "week"]%string /\
+  forallb validate (infos ex_store) = true /\ forallb clock_invb (infos ex_store) = true.
+Proof. vm_compute. auto. Qed.
+Example ex_minute : exists e, entry "minute" ex_store = Some e /\ validate e = true /\ ei_started e = false /\
+  ei_start e = 130 /\ (forall b, In b [(1, 101); (2, 101)] -> snd b < ei_start e).
+Proof.
+  eexists. split; [vm_compute; reflexivity|]. simpl. repeat split; auto.
+  intros b [<-|[<-|[]]]; simpl; reflexivity.
+Qed.
+(* the example history is not trivial: "minute" starts at block 3 and then runs 130,140,...: numbers 1,2,3,4,5;
+   "hour" starts at block 1; "week" catches up one epoch per block *)
+Example ex_run_numbers :
+  map (fun e => (ei_id e, ei_cur e, ei_cur_start e)) (infos (fst (run 2 ex_store ex_blocks))) =
+  [("hour"%string, 2, 160); ("minute"%string, 5, 170); ("week"%string, 11, 120)].
+Proof. vm_compute. reflexivity. Qed.
+Example ex_log_minute :
+  map (fun e => (ev_k e, ev_num e, ev_sub e)) (log_of "minute" (snd (run 2 ex_store ex_blocks))) =
+  [(EvStart, 1, 0%nat); (EvStart, 1, 1%nat);
+   (EvEnd, 1, 0%nat); (EvEnd, 1, 1%nat); (EvStart, 2, 0%nat); (EvStart, 2, 1%nat);
+   (EvEnd, 2, 0%nat); (EvEnd, 2, 1%nat); (EvStart, 3, 0%nat); (EvStart, 3, 1%nat);
+   (EvEnd, 3, 0%nat); (EvEnd, 3, 1%nat); (EvStart, 4, 0%nat); (EvStart, 4, 1%nat);
+   (EvEnd, 4, 0%nat); (EvEnd, 4, 1%nat); (EvStart, 5, 0%nat); (EvStart, 5, 1%nat)].
+Proof. vm_compute. reflexivity. Qed.
+(* boundary: t = start + duration exactly does NOT tick, one nanosecond later does *)
+Example ex_boundary :
+  let e := mkEI "m" 130 10 1 130 true 3 in
+  tick 1 9 140 e = (e, []) /\ ei_cur (fst (tick 1 9 141 e)) = 2.
+Proof. vm_compute. auto. Qed.
+(* why C15_monotone asks for "started or number 0": the first tick RESETS the number to 1 *)
+Example reset_example :
+  ei_cur (fst (tick 1 1 100 (mkEI "x" 100 10 5 zero_time false 0))) = 1.
+Proof. vm_compute. reflexivity. Qed.
+(* an invalid stored entry (only reachable by writing the store directly) is frozen, cf. C15_invalid_frozen *)
+Example ex_invalid : validate (mkEI "z" 0 0 3 0 true 0) = false. Proof. reflexivity. Qed.
